@@ -1429,6 +1429,10 @@ func exchangeServiceInfoRound(ctx context.Context, transport Transport, mtu uint
 
 	// Receive all owner service info
 	for _, kv := range ownerServiceInfo.ServiceInfo {
+		if kv == nil {
+			captureErr(ctx, protocol.MessageBodyErrCode, "")
+			return 0, false, fmt.Errorf("error parsing TO2.OwnerServiceInfo contents: service info contains a null KV")
+		}
 		if err := w.WriteChunk(kv); err != nil {
 			return 0, false, fmt.Errorf("error piping owner service info to device module: %w", err)
 		}
@@ -1524,6 +1528,10 @@ func (s *TO2Server) ownerServiceInfo(ctx context.Context, msg io.Reader) (*owner
 	// Handle data with owner module
 	unchunked, unchunker := serviceinfo.NewChunkInPipe(len(deviceInfo.ServiceInfo))
 	for _, kv := range deviceInfo.ServiceInfo {
+		if kv == nil {
+			captureErr(ctx, protocol.MessageBodyErrCode, "")
+			return nil, fmt.Errorf("error decoding TO2.DeviceServiceInfo request: service info contains a null KV")
+		}
 		if err := unchunker.WriteChunk(kv); err != nil {
 			return nil, fmt.Errorf("error unchunking received device service info: write: %w", err)
 		}
